@@ -108,6 +108,7 @@ struct RunSpec {
   std::vector<uint64_t> dsteps;
   std::vector<int> dtasks;
   bool serial_only = false;  // c12: pristine serial reference run
+  bool force_calm = false;   // confirmation runs: aligned, zero-filled memory
 };
 
 static const char* pol_names[] = {"serial", "random", "pct", "replay"};
@@ -566,6 +567,7 @@ static void run_c15(const RunSpec& s, RunResult& R) {
   env.model_compare = false;
   env.fresh_twin = true;
   env.protect_sources = true;
+  env.calm = s.force_calm;
   Exec e(s.P, env);
   e.setup_objects();
   int nt = s.P.ntasks > 0 ? s.P.ntasks : 1;
@@ -881,7 +883,7 @@ int main(int argc, char** argv) {
   uint64_t seed = 1;
   long first = 0, count = 1, one = -1;
   int variant = 0;
-  bool thorough = false, serial_only = false;
+  bool thorough = false, serial_only = false, same_mask = false, calm = false;
   for (int i = 1; i < argc; ++i) {
     std::string a = argv[i];
     auto nx = [&]() -> const char* { return i + 1 < argc ? argv[++i] : ""; };
@@ -896,6 +898,8 @@ int main(int argc, char** argv) {
     else if (a == "--dump") dump = nx();
     else if (a == "--verbose") g_verbose = true;
     else if (a == "--serial-only") serial_only = true;
+    else if (a == "--same-mask") same_mask = true;
+    else if (a == "--calm") calm = true;
     else {
       usage();
       return 64;
@@ -911,6 +915,8 @@ int main(int argc, char** argv) {
       return 64;
     }
     if (serial_only) s.serial_only = true;
+    if (same_mask) s.maskB = s.maskA;
+    if (calm) s.force_calm = true;
     return child_run(s, -1, 1, dump.empty() ? nullptr : dump.c_str());
   }
   if (world.empty()) {
